@@ -10,6 +10,10 @@ from tiv.mutate import M
 from tiv.sem import trace, same_bool
 
 RULES = {
+    "R8": "who-may-write: every state cell of RenderIterator (loop, _padding, _padded_size, _render_args, _render_data, _closed, ...) is stored only by the "
+          "methods listed in the rule's table (confirmed by reading); a new writer is reported",
+    "MEMO": "memo safety (shared, rules/common.py): a memoised function in this property's files (or called from them) is a function of its "
+            "arguments only (no terminal/ambient/receiver state outside the key) and no caller mutates its result in place",
     "R1": "closed guard first: in seek/set_frame_duration/set_padding/set_render_args/set_render_size the `if self._closed: raise "
           "FinalizedIteratorError` guard is the first statement; __next__ maps a finalized iterator to StopIteration",
     "R2": "reject without changing state: in those methods no store to self.* or to the render-data namespace lies on a path that can still "
@@ -186,9 +190,39 @@ def run(ck, m):
 
     rule_padded_size_maintained(ck, m, "R6")
 
+    # ---- R8: who may write which state cell of the iterator (confirmed by reading; one line of reason each) ------------------
+    WRITERS = {
+        "_cached": {"_init"},                                        # decided once from the cache argument
+        "_closed": {"_init", "close"},                               # finalization flag: only close() sets it
+        "_finalize_data": {"__init__", "_from_render_data_"},         # ownership of the render data is fixed at construction
+        "_iterator": {"__init__", "_from_render_data_", "close"},     # the generator; close() deletes it
+        "_loops": {"_init"},
+        "_padded_size": {"_iterate", "set_padding", "set_render_size"},   # C08.R6: follows padding and size
+        "_padding": {"__init__", "_from_render_data_", "set_padding"},
+        "_render_args": {"_iterate", "set_render_args"},
+        "_render_data": {"_iterate", "close"},
+        "_renderable": {"_init"},
+        "_renderable_data": {"_iterate"},
+        "loop": {"_init", "_iterate"},                               # the countdown: consumed only by completed passes of the generator
+    }
+    seen = {}
+    for rel_, q_, t, st in m.stores(IT):
+        if isinstance(t, ast.Attribute) and norm(t.value) in ("self", "new") and (getattr(st, "_q", "") or "").startswith("RenderIterator."):
+            seen.setdefault(t.attr, []).append(((getattr(st, "_q", "") or "").split(".")[-1].split("#")[0], st))
+    for cell, ws in sorted(seen.items()):
+        for meth, st in ws:
+            ck.ob("R8", st, cell in WRITERS and meth in WRITERS[cell],
+                  f"RenderIterator.{meth} writes `{cell}`, which only {sorted(WRITERS.get(cell, []))} may write: " + (
+                      "the loop countdown would change although no pass of the frames was consumed (and `loop` is what control methods and callers read)" if cell == "loop" else
+                      "a state cell changed outside the methods that keep the iterator's invariants for it"), stmt=f"writers of RenderIterator.{cell}: {meth}")
+    ck.expect(len(seen) >= 10, f"expected >= 10 state cells of RenderIterator, found {len(seen)}")
+
     # ---- R7 ----------------------------------------------------------------------------
     from rules.c09 import rule_padding_after_cache
     rule_padding_after_cache(ck, m, "R7")
+
+    from rules.common import rule_memo_safety
+    rule_memo_safety(ck, m, "MEMO", "C08")
 
 
 def rule_padded_size_maintained(ck, m, rid):
